@@ -9,6 +9,10 @@ def _sig(c, v):
             return "https-registered-route-404:1"
         if d["listener"] == "https" and mws and not d.get("https_builder_has_UsingMiddleWare"):
             return "https-middleware-not-configurable:1"
+        if "logresp" in mws and (t.endswith("-respwrite") or "interim-1xx-responses" in c["tags"]
+                                 or any(h.get("op") == "flush" or (h.get("op") == "status" and 100 <= h.get("k", 0) < 200)
+                                        for r in cfg["addroute_calls"] for h in r["handler"])):
+            return "response-writing-differs-behind-logresponse:1"
         if "overlapping-requests" in c["tags"]:
             return "overlapping-requests-mixed-up:1"
         if "logreq" in mws and d["request"]["body"]:
@@ -25,7 +29,7 @@ SPEC = {
         "sigfn": _sig,
         "kind": "coqcases", "module": "CorrC17", "harness": "c17", "corr": "Run/CorrC17.v (model of middleware + route table vs the running server.Server)",
         "timeout": 2400,
-        "rule": "each case = one real exchange (HTTP, HTTPS/TLS with a certificate generated at run time, or one gRPC call / reflection listing) against a started server.Server on loopback, re-run in Coq on the model: the monitor checks routing against the AddRoute call list, the enter/exit order of recording middleware, and equality with the run WITHOUT LogRequest/LogResponse; then the full event log incl. the logger's messages is compared with the model. Generation: the refutation witnesses first; every subset of 6 (method,path) pairs x 12 requests x both listeners; every middleware list over {LogRequest, LogResponse, rec1, rec2} up to a length bound x 4 handler programs (echo, partial reads, headers/status, empty); a second routing universe (all subsets of GET/PUT /a/b, GET /a/b/c, DELETE /p0/q, OPTIONS /p0 x 20 requests: prefix-sharing paths, HEAD on GET, other methods); configuration call SEQUENCES (every sequence up to a length bound over {AddRoute x3, GetRoutes} containing both, adds through the builder and through the config object returned by Config.GetHttp[s]ServerConfig(), GetMiddleware/TLS getters, middleware set after reads or replacing an earlier one); seeded random configurations (routes over 7 methods x 8 paths, handler programs, scripted middleware, headers, bodies; half of them as call sequences with read accessors); request bodies sent with Content-Length and WITHOUT (chunked HTTP/1.1, unsized HTTP/2), incl. 300 B - 70 kB (thorough 1.1 MB) bodies; OVERLAPPING requests (8, thorough 16, at once through each of 5 middleware lists; every handler waits at a barrier until all handlers have been entered and only then reads its body; recorder events are kept per request); every subset of 5 gRPC descriptors with re-registration, initializers, reflection and the gRPC config's getters called between registrations. distinct = by (listener, AddRoute calls, middleware list, request) resp. (registrations, called service); non-trivial = the listener has at least one route / the server at least one registration.",
+        "rule": "each case = one real exchange (HTTP, HTTPS/TLS with a certificate generated at run time, or one gRPC call / reflection listing) against a started server.Server on loopback, re-run in Coq on the model: the monitor checks routing against the AddRoute call list, the enter/exit order of recording middleware, and equality with the run WITHOUT LogRequest/LogResponse; then the full event log incl. the logger's messages is compared with the model. Generation: the refutation witnesses first; every subset of 6 (method,path) pairs x 12 requests x both listeners; every middleware list over {LogRequest, LogResponse, rec1, rec2} up to a length bound x 4 handler programs (echo, partial reads, headers/status, empty); a second routing universe (all subsets of GET/PUT /a/b, GET /a/b/c, DELETE /p0/q, OPTIONS /p0 x 20 requests: prefix-sharing paths, HEAD on GET, other methods); configuration call SEQUENCES (every sequence up to a length bound over {AddRoute x3, GetRoutes} containing both, adds through the builder and through the config object returned by Config.GetHttp[s]ServerConfig(), GetMiddleware/TLS getters, middleware set after reads or replacing an earlier one); seeded random configurations (routes over 7 methods x 8 paths, handler programs, scripted middleware, headers, bodies; half of them as call sequences with read accessors); request bodies sent with Content-Length and WITHOUT (chunked HTTP/1.1, unsized HTTP/2), incl. 300 B - 70 kB (thorough 1.1 MB) bodies; RESPONSE-WRITING handler programs (every sequence up to length 2, thorough 3, over WriteHeader 103/102/404/201, Write, empty Write, Flush, Header().Set: interim then final status, final twice, WriteHeader after Write, none, Flush in between) behind LogResponse bundled/direct/with others and without it, the client's interim 1xx responses being part of what is compared; OVERLAPPING requests (8, thorough 16, at once through each of 5 middleware lists; every handler waits at a barrier until all handlers have been entered and only then reads its body; recorder events are kept per request); every subset of 5 gRPC descriptors with re-registration, initializers, reflection and the gRPC config's getters called between registrations. distinct = by (listener, AddRoute calls, middleware list, request) resp. (registrations, called service); non-trivial = the listener has at least one route / the server at least one registration.",
     }],
     "trusted": [
         "net/http (ServeMux matching of literal 'METHOD /path' patterns, ResponseWriter header-snapshot semantics, TLS, HTTP/1.1 and HTTP/2 framing) and grpc-go dispatch/reflection are modelled by contract; the contract is exercised by this run's cases only",
@@ -34,7 +38,7 @@ SPEC = {
     ],
     "assumptions": [
         "route paths are clean literals without a trailing slash or {wildcards}; methods are non-empty tokens",
-        "status codes written by handlers allow a body (not 1xx/204/304)",
+        "final status codes written by handlers allow a body (not 204/304); interim codes are 102/103 (not 100/101), at most 3 per response (the Go client gives up after 5)", "handlers and middleware read the request body before they flush the response (net/http discards an unread HTTP/1.1 body once the response is flushed, with or without middleware)",
         "middleware other than the supplied ones is well behaved (cannot observe logger output or wrapper-private state): hypothesis others_respectful of C17_transparent",
     ],
 }
@@ -45,6 +49,10 @@ META = {
   "technique": "Coq proof (logical relation for transparency, induction for bundle order, functional-table lemma for the router) over an executable model + differential correspondence (vm_compute) against a live server",
 }
 KNOWN = [
+ {"property": "C17", "id": "F13d", "status": "fixed", "commit": "18fb86d",
+  "what": "ResponseWriterWrapper (LogResponse) did not implement http.Flusher: a handler that flushes when its writer can did so without the middleware and not behind it; 'Flush(); WriteHeader(404)' -> client got 200 without LogResponse, 404 with it",
+  "line": "fixed: property=C17 18fb86d LogResponse hid http.Flusher (flush; WriteHeader(c) gave a different status behind the middleware)",
+  "signature": "^response-writing-differs-behind-logresponse:1$"},
  {"property": "C17", "id": "F13a", "status": "fixed", "commit": "f753480",
   "what": "NewHttpsProvider never assigned its ServeMux to srvr.Handler: every route registered for the HTTPS listener answered 404 (GET /p1 registered, https GET /p1 -> 404, handler never ran)",
   "line": "fixed: property=C17 f753480 HTTPS listener answered 404 for every registered route (mux never installed as handler)",
